@@ -121,6 +121,7 @@ type Backend struct {
 	SlowKeyspaces  map[string]time.Duration // USE of these is answered only after the delay (a backend slower than the proxy's connect timeout)
 	OddKeyspaces   map[string]bool          // USE of these is answered with a RESULT that is not set_keyspace
 	OptionsReplies []Outcome                // raw replies handed out, one each, to the next OPTIONS (heartbeats) of started connections
+	FailSystemOn   map[string]bool          // hosts (IP) whose system-table queries are answered with SERVER_ERROR (no control connection there)
 	StartupDelay   time.Duration            // every STARTUP is answered after this delay (widens the window in which a session is being created)
 	PrepareErr     map[string][]Outcome     // per prepared-id (hex) outcomes of PREPARE attempts
 	prepAttempts   map[string]int
@@ -307,6 +308,16 @@ func (b *Backend) OptionsRepliesLeft() int {
 	b.mu.Lock()
 	defer b.mu.Unlock()
 	return len(b.OptionsReplies)
+}
+
+// SetFailSystemOn makes host n answer (or stop answering) system-table queries with an error.
+func (b *Backend) SetFailSystemOn(n int, on bool) {
+	b.mu.Lock()
+	if b.FailSystemOn == nil {
+		b.FailSystemOn = map[string]bool{}
+	}
+	b.FailSystemOn[b.IP(n)] = on
+	b.mu.Unlock()
 }
 
 // SetStartupDelay makes every later STARTUP wait before it is answered.
@@ -824,6 +835,11 @@ func (c *Conn) handle(hdr, body, raw []byte) bool {
 			rec.Kind = "system"
 			rec.Token = token
 			c.logRec(rec)
+			if be.FailSystemOn[c.host.IP] {
+				be.mu.Unlock()
+				c.sendMsg(stream, &message.ServerError{ErrorMessage: "fb: system tables unavailable on this host"})
+				return true
+			}
 			if be.FailSystem > 0 {
 				be.FailSystem--
 				be.mu.Unlock()
